@@ -105,11 +105,14 @@ def families(rng: random.Random):
                      Tiles((B[0] * 2, B[1] * 2), (bt[0] * 2, bt[1] * 2)), Tiles((10, 10), (4, 4)), Tiles((11, 11), (4, 4)), Tiles((12, 12), (4, 4))]
     V = VariableSizedTiles
     fams["VariableSizedTiles"] = [V(((4, 4, 2), (5, 5))), V(((4, 4, 2), (5, 5))), V(((4, 4, 3), (5, 5))), V(((4, 6), (5, 5))), V(((5, 5), (4, 4, 2))), V(((4, 2, 4), (5, 5))),
-                                  V(((2, 4, 4), (5, 5))), V(((4, 4, 2), (5, 4, 1))), V(((10,), (10,))), V(((4, 4, 2), (10,))), V(((4, 4, 2, 0), (5, 5))), V(((1,) * 10, (5, 5)))]
+                                  V(((2, 4, 4), (5, 5))), V(((4, 4, 2), (5, 4, 1))), V(((10,), (10,))), V(((4, 4, 2), (10,))), V(((4, 4, 2, 0), (5, 5))), V(((1,) * 10, (5, 5))),
+                                  # same flat run of chunk sizes, cut into rows / columns at different places
+                                  V(((10, 20), (30,))), V(((10,), (20, 30))), V(((30, 0), (30,))), V(((30,), (0, 30))), V(((5, 5), (5, 5))), V(((5,), (5, 5, 5))), V(((5, 5, 5), (5,)))]
     g10 = GeoBox((10, 10), A, "EPSG:3857")
     T = GeoboxTiles
     fams["GeoboxTiles"] = [T(g10, (4, 4)), T(g10, (4, 4)), T(g10, (5, 5)), T(g10.crop((11, 11)), (4, 4)), T(g10.crop((12, 12)), (4, 4)), T(g10, ((4, 4, 2), (4, 4, 2))), T(g10, ((4, 6), (4, 4, 2))),
-                           T(GeoBox((10, 10), A, "EPSG:32633"), (4, 4)), T(GeoBox((10, 10), A * Affine.translation(1, 0), "EPSG:3857"), (4, 4)), T(g10, (4, 5)), T(g10, (10, 10)), T(g10, ((10,), (10,)))]
+                           T(GeoBox((10, 10), A, "EPSG:32633"), (4, 4)), T(GeoBox((10, 10), A * Affine.translation(1, 0), "EPSG:3857"), (4, 4)), T(g10, (4, 5)), T(g10, (10, 10)), T(g10, ((10,), (10,))),
+                           T(g10, ((10, 0), (10,))), T(g10, ((10,), (0, 10))), T(g10, ((10,), (10, 0)))]
     x0, y0 = rng.uniform(-100, 100), rng.uniform(-50, 50)
     bb = lambda l=x0, b=y0, r_=x0 + 10, t=y0 + 5, crs="EPSG:4326": BoundingBox(l, b, r_, t, crs)
     fams["BoundingBox"] = [bb(), bb(), bb(l=x0 - 1), bb(b=y0 - 1), bb(r_=x0 + 11), bb(t=y0 + 6), bb(t=math_nextafter(y0 + 5)), bb(l=y0, b=x0) if x0 != y0 else bb(l=x0 + 0.5)] + [bb(crs=c) for c in crss if c != "EPSG:4326"]
